@@ -6,6 +6,7 @@ import RsModel.Lemmas.LeavesAttr
 import RsModel.Lemmas.ColdStrip
 import RsModel.Lemmas.WarmTree
 import RsModel.Lemmas.HistoryAnswers
+import RsModel.Lemmas.LeavesLines
 /-!
 # C13 — composition laws: nesting, neutral elements and wrappers change nothing
 -/
@@ -218,5 +219,34 @@ theorem c13_same_leaves_every_history (a b : Src) (σa σb : Store) (hna : a.ids
   obtain ⟨ra, a1, a2⟩ := history_stream_NA a hka hna σa hca hwa callsA ka h1
   obtain ⟨rb, b1, b2⟩ := history_stream_NA b hkb hnb σb hcb hwb callsB kb h2
   exact ⟨ra, rb, a1, b1, by rw [a2, b2]; exact NA_same_leaves _ _ (Src.strip_nc a) (Src.strip_nc b) ia ib h⟩
+
+/-! ## columns = false -/
+
+/-- **every regrouping at once, columns = false, for any leaves**: two cache-free trees with the same sequence of leaves, however
+ConcatSource groups them, resolve every byte of the normal-mode stream with columns = false to the same file name, original line,
+column and name — and hence the first mapped chunk of every generated line to the same file name and original line. -/
+theorem c13_same_leaves_lines (a b : Src) (ha : a.NoCached) (hb : b.NoCached) (ia : a.IdxHyp) (ib : b.IdxHyp)
+    (wa : a.WF) (wb : b.WF) (pa : a.PosHyp false) (pb : b.PosHyp false) (h : a.leaves = b.leaves) :
+    NA (a.stream ⟨false, false⟩ []).1.evs = NA (b.stream ⟨false, false⟩ []).1.evs
+    ∧ ∀ L, LNameOf (a.stream ⟨false, false⟩ []).1.evs L = LNameOf (b.stream ⟨false, false⟩ []).1.evs L :=
+  ⟨NA_same_leaves' false a b ha hb ia ib h, lname_same_leaves a b ha hb ia ib wa wb pa pb h⟩
+
+/-- **… and with CachedSource wrappers, after arbitrary call histories** (columns = false, file and line granularity): `a` and `b`
+have the same sequence of leaves once their CachedSource wrappers are taken off, each is observed through its own history; any
+normal-mode stream with columns = false of the one and of the other resolve the first mapped chunk of every generated line to the
+same file name and original line. -/
+theorem c13_same_leaves_every_history_lines (a b : Src) (σa σb : Store) (hna : a.ids.Nodup) (hnb : b.ids.Nodup)
+    (hca : Cold σa a.ids) (hcb : Cold σb b.ids) (hka : a.NoCR) (hkb : b.NoCR)
+    (wa : a.WF) (wb : b.WF) (pa : a.PosHyp false) (pb : b.PosHyp false) (hwa : a.WarmHypL) (hwb : b.WarmHypL)
+    (ia : a.strip.IdxHyp) (ib : b.strip.IdxHyp) (h : a.strip.leaves = b.strip.leaves)
+    (callsA callsB : List Opts) (ka kb : Nat) (h1 : callsA[ka]? = some ⟨false, false⟩) (h2 : callsB[kb]? = some ⟨false, false⟩) :
+    ∃ ra rb, (runCalls a callsA σa).1[ka]? = some ra ∧ (runCalls b callsB σb).1[kb]? = some rb
+      ∧ ∀ L, LNameOf ra.evs L = LNameOf rb.evs L := by
+  obtain ⟨ra, a1, a2⟩ := history_stream_lname a hka hna σa hca wa pa hwa callsA ka h1
+  obtain ⟨rb, b1, b2⟩ := history_stream_lname b hkb hnb σb hcb wb pb hwb callsB kb h2
+  refine ⟨ra, rb, a1, b1, fun L => ?_⟩
+  rw [a2 L, b2 L]
+  exact lname_same_leaves _ _ (Src.strip_nc a) (Src.strip_nc b) ia ib (Src.strip_wf a wa) (Src.strip_wf b wb)
+    (Src.strip_posHyp false a pa) (Src.strip_posHyp false b pb) h L
 
 end Rs
